@@ -500,10 +500,23 @@ def run(ctx):
                                     for o in s_["rv"]["ops"]:
                                         if any(rr[0] == "call" and rr[1].endswith("Value::as_number") for rr in fn.trace(o)):
                                             user_number = True
-                    definite = span_fields or (user_string and user_number)
+                    # a constant / static string sliced at a computed offset that is not clamped to its length
+                    const_recv = bool(recv_roots) and all(r[0] in ("const", "static") for r in recv_roots)
+                    clamped = False
+                    for r in roots:
+                        if r[0] == "agg":
+                            for s_ in fn.stmts(r[2]):
+                                if s_["k"] == "assign" and s_["rv"]["k"] == "agg" and "ops::range::Range" in s_["rv"].get("adt", ""):
+                                    for o in s_["rv"]["ops"]:
+                                        if any(rr[0] == "call" and (rr[1].endswith("::min") or rr[1].endswith("::len") or rr[1].endswith("::clamp")) for rr in fn.trace(o)):
+                                            clamped = True
+                    const_sliced = const_recv and not clamped
+                    definite = span_fields or (user_string and user_number) or const_sliced
                     why = " (value-dependent: not decided)"
                     if span_fields:
                         why = " taken from an ast::Span: the span may belong to another text (a function body), so the slice can be out of range"
+                    elif const_sliced:
+                        why = ": a fixed-length constant string is sliced at a computed offset that is not clamped to its length (a larger value is out of range)"
                     elif user_string and user_number:
                         why = ": a user string is sliced at byte offsets computed from user numbers; an offset inside a multi-byte character panics (`byte index is not a char boundary`)"
                     ctx.inst("C01.R11", "%s#str-slice[%d]" % (n.replace(CORE, ""), k), False if definite else None,
@@ -576,6 +589,27 @@ def run(ctx):
     # ---------------- R7 grammar <=> AST builder
     ctx.rule("C01.R7", "every `.next().unwrap()` sequence in the AST builder is no longer than the mandatory child slots the grammar gives the rule; primaries and operators are covered (C10.R2)", floor=6)
     from lib import scope
+    # every kind of pair the grammar can put directly inside an `expression` is something the Pratt parser knows: a registered operator
+    # or a primary with a builder arm (anything else - e.g. a non-silent rule inside a layout gap - makes pest's PrattParser panic)
+    try:
+        rows_ = c10.precedence_rows(core)
+        ok_b, _why, tail_ = c10.builder_shape(core)
+        known_ops = {r_["rule"] for r_ in rows_} | {r_ for ch_ in tail_ for _k, r_ in ch_}
+        c10.CRATE[0] = core
+        builder_ = core.hir_fn(CORE + "expressions::pairs_to_expr_inner")["body"]
+        mprim_ = c10.rule_match(c10.closure_of(builder_, "map_primary", required=False), required=False)
+        prim_arms = {H.last(v) for a in (mprim_["arms"] if mprim_ else []) for v in H.pat_variants(a["pat"])}
+        kids = set()
+        for r_ in ("expression", "lambda_expression"):
+            if r_ in G.rules:
+                kids |= G.children(G.expr(r_))
+        if mprim_ is None or not ok_b:
+            ctx.inst("C01.R7", "expression#children", None, "the builder's primary match / operator registrations could not be read", None)
+        else:
+            stray = sorted(k_ for k_ in kids if k_ not in known_ops and k_ not in prim_arms)
+            ctx.inst("C01.R7", "expression#children", not stray, "pair kinds the grammar can yield inside an expression: %d; neither a registered operator nor a primary arm: %s" % (len(kids), stray or "none"), "blots-core/src/grammar.pest")
+    except CheckerError as ex_:
+        ctx.inst("C01.R7", "expression#children", None, "not decided: %s" % ex_, None)
     for fname in (CORE + "expressions::pairs_to_expr_inner", CORE + "expressions::parse_record_entry"):
         body = core.hir_fn(fname)["body"]
         groups = {}
